@@ -284,6 +284,21 @@ def run(model: RepoModel, rep, tier: str):
     check_accumulating_loops(model, rep, "C09.R4")
     check_call_site_budget(model, rep, "C09.R6", declare=True)
     _r3_call_path_depth(model, rep)
+    # binary operations on constants: whether an operand is text is decided by its DATA TYPE.  A test on its characters
+    # (isdigit / isnumeric / isdecimal) makes the string "12" a number, and "12" + "34" the integer 46
+    rep.rule("C09.R9", "constant folding keeps the operand types: in compute_two_states no operand is classified as a number or a string by the "
+                       "characters of its value", 1)
+    c2s = st.methods.get("compute_two_states")
+    if c2s is None:
+        raise AnalysisError("StmtStates.compute_two_states vanished")
+    key = f"{SS}::StmtStates.compute_two_states::operands are classified by data type"
+    bad = [c for c in walk_no_nested(c2s.node) if isinstance(c, ast.Call) and isinstance(c.func, ast.Attribute) and c.func.attr in ("isdigit", "isnumeric", "isdecimal", "isalpha", "isalnum")]
+    if bad:
+        rep.violation("C09.R9", key, SS, bad[0].lineno,
+                      f"compute_two_states tests `{norm(bad[0])}`: a string constant made of digits is then folded as a number -- `\"12\" + \"34\"` yields the integer "
+                      f"46 instead of the string \"1234\", so the result set of a binary operation on constant operands is not the set of the operand combinations")
+    else:
+        rep.holds("C09.R9", key, SS, c2s.node.lineno, "no character-class test on operand values")
     check_ceiling_snapshots(model, rep, "C09.R7", declare=True)
     from ..generic import check_shared_class_state
     rep.rule("C09.R8", "states, frames and spaces are per instance: a mutable object bound in a class body of the analysis core is a constant table, "
